@@ -235,6 +235,27 @@ Theorem C12_tunnel_reused_for_its_authority_only : forall eA eB ops cA cB,
 Proof. exact (fun eA eB ops cA cB => conj (run2_proj eA eB ops cA cB) gen_key_keeps_target). Qed.
 Print Assumptions C12_tunnel_reused_for_its_authority_only.
 
+(* What is learned about one authority stays with it (round 5): two authorities - one origin under two names, or
+   two origins on ONE host name with different ports.  Whatever the client did and learned at A in ANY interleaved
+   sequence (Alt-Svc entries pending or confirmed, HTTP/3 connections ...), an unforced request to B is served over
+   HTTP/3 only if B itself has a QUIC listener and over HTTP/2 only if B's TLS listener offers h2; the code's
+   Alt-Svc bookkeeping is keyed by host AND port (generated fact on netutil.AuthorityKey). *)
+Theorem C12_other_authority_negotiates_for_itself : forall eA eB ops,
+  let cB := snd (snd (run2 eA eB (new_client, new_client) ops)) in
+  c_force cB = FNone -> e_https eB = true ->
+  match outcome_of (do_req eB cB) with
+  | Use V2 => mem_bytes alpn_h2 (s_alpn (e_srv eB)) = true
+  | Use V3 => s_h3 (e_srv eB) = true
+  | Cleartext => False
+  | _ => True
+  end.
+Proof. exact other_authority_negotiates_for_itself. Qed.
+Print Assumptions C12_other_authority_negotiates_for_itself.
+
+Theorem C12_altsvc_keyed_by_host_and_port : altsvc_key_has_port = true.
+Proof. exact gen_altsvc_key. Qed.
+Print Assumptions C12_altsvc_keyed_by_host_and_port.
+
 (* the three defects of the pinned tree, as theorems about the pinned variants of the same functions *)
 Theorem C12_tls_uniform_pinned_refuted :
   exists host o, sec (tls_view_pinned S3 false host o) <> sec (effective host o).
